@@ -223,6 +223,24 @@ def check_C02(ctx):
     fs_property(ctx, "C02", "C02", ["C02_readonly_refuses", "C02_step", "C02_init_good", "C02_history", "C02_create_existing", "C02_create_existing_empty", "C02_create_pre_existing", "C02_write_file_exact", "C02_write_file", "C02_history_with_writes", "C02_rename", "C02_remove_all", "C02_step_any_config", "C02_history_any_config", "C02_create_existing_any_config"], oracles.c02, classify=classify_C02, needs_ref=True)
 
 
+    # every pipeline configuration: the configuration-matrix histories carry their own reference (what each name was given is what a
+    # reference filesystem holds): names, sizes, contents and the success of every create/chmod/rename/truncate under every codec
+    import crypto
+    mdata = crypto.matrix_stream(ctx)
+    nfail = 0
+    for d in mdata:
+        if d["rc"] != 0:
+            continue          # judged by C03
+        for f in crypto.c03_oracle(d):
+            nfail += 1
+            if nfail <= 3:
+                ctx.violation(f["kind"], "%s for %s under %s" % (f["kind"], f["name"], json.dumps(d["h"]["config"])), dict(history=d["h"], failing=f,
+                              how="stfsdrv run < history.json; compare the tagged readfile/stat/restore results and the final tree with history.expect (the reference content of every name)"))
+    ctx.oblige("oracle: under every pipeline configuration of the matrix (%d configurations) every call succeeds as on the reference and every name holds the size and content the reference holds" % len(mdata),
+               nfail == 0, "%d failures" % nfail)
+    ctx.coverage.update(matrix_configs=len(mdata))
+
+
 def check_C04(ctx):
     import oracles
     fs_property(ctx, "C04", "C04", ["C04_pos_arith", "C04_pos_unique", "C04_branches_dead", "C04_positions_stable", "C04_positions_wf", "C04_lastknown_not_before_content", "C04_positions_designate_content", "C04_read_is_last_written", "C04_walk_shows_last_written", "C04_read_after_create", "C04_read_after_write_file", "C04_read_is_last_written_with_writes", "C04_reachable_any_config", "C04_walk_shows_last_written_any_config", "C04_step_any_config", "C04_read_after_create_any_config"], oracles.c04, classify=classify_update_unindexed)
@@ -250,7 +268,7 @@ def check_C04(ctx):
 
 def check_C05(ctx):
     import oracles
-    fs_property(ctx, "C05", "C05", ["C05_step_appends", "C05_history_appends", "C05_records_stay", "C05_nonvacuous", "C05_tape_is_archives", "C05_step_appends_archives", "C05_archives_decidable", "C05_blocks_of_archives", "C05_bytes_on_the_grid", "C05_member_table", "C05_members_at_their_positions", "C05_refused_precondition_appends_nothing", "C05_failed_after_write_is_replay_failure", "C05_readonly_appends_nothing", "C05_failed_call_appends_nothing_sync", "C05_failed_call_appends_nothing", "C05_failed_call_appends_nothing_all_calls", "C05_history_failed_calls_append_nothing"], oracles.c05)
+    fs_property(ctx, "C05", "C05", ["C05_step_appends", "C05_history_appends", "C05_records_stay", "C05_nonvacuous", "C05_tape_is_archives", "C05_step_appends_archives", "C05_archives_decidable", "C05_blocks_of_archives", "C05_bytes_on_the_grid", "C05_member_table", "C05_members_at_their_positions", "C05_refused_precondition_appends_nothing", "C05_failed_after_write_is_replay_failure", "C05_readonly_appends_nothing", "C05_failed_call_appends_nothing_sync", "C05_failed_call_appends_nothing", "C05_failed_call_appends_nothing_all_calls", "C05_history_failed_calls_append_nothing", "C05_writer_opens_in_append_mode"], oracles.c05)
     # every pipeline configuration: the configuration-matrix histories (codecs, encryption, signatures, both write caches) with the tape
     # observed after every call
     import crypto
